@@ -8,3 +8,18 @@
 ; reader position when the decoder was started (FullyScannedBytes is relative to it)
 (declare-const rstart Int)
 ; ghost buflen (Array Int Int)
+; protoscan iterators over packed varints: itLeft[a] = number of complete
+; values still unread in the iterator whose embedded base lives at address a
+; ghost itLeft (Array Int Int)
+; invariant S_protoscan_base (>= (S_protoscan_base_f_Index $v) 0)
+; round-robin position: rr(c, n) = position of the c-th item in a cyclic order
+; over n places (c mod n), given by its recurrence
+(declare-fun rr (Int Int) Int)
+(assert (forall ((n Int)) (! (=> (>= n 1) (= (rr 0 n) 0)) :pattern ((rr 0 n)))))
+(assert (forall ((c Int) (n Int))
+  (! (=> (and (>= c 0) (>= n 1))
+         (and (<= 0 (rr c n)) (< (rr c n) n)
+              (= (rr (+ c 1) n) (ite (= (+ (rr c n) 1) n) 0 (+ (rr c n) 1)))))
+     :pattern ((rr c n)))))
+; the context a cancel function (context.WithCancel) cancels
+(declare-fun ctxOf (Int) Iface)
